@@ -175,6 +175,13 @@ TUpToDate ==
      fails' = Fail(E.res = cur, E.tag \o "_UpToDate") \cup Fail(E.next = NextIndex(loaded[h]), E.tag \o "_NextIndex")
   /\ UNCHANGED <<tabs, loaded, nextTab>> /\ Step
 
+(* an explicit reload: the handle now holds the committed stack *)
+TReload ==
+  /\ Is("reload")
+  /\ loaded' = [loaded EXCEPT ![E.h] = tabs]
+  /\ fails' = Fail(E.res = "ok", "C10_ReloadFails")
+  /\ UNCHANGED <<tabs, nextTab>> /\ Step
+
 TClose ==
   /\ Is("close")
   /\ loaded' = [loaded EXCEPT ![E.h] = <<>>]
@@ -183,7 +190,7 @@ TClose ==
 
 TDone == l > Len(Ev) /\ UNCHANGED vars
 
-TNext == TOpen \/ TAdd \/ TCompact \/ TDisk \/ TView \/ TSeekRef \/ TSeekLog \/ TRefsFor \/ TUpToDate \/ TClose \/ TDone
+TNext == TOpen \/ TAdd \/ TCompact \/ TDisk \/ TView \/ TSeekRef \/ TSeekLog \/ TRefsFor \/ TUpToDate \/ TReload \/ TClose \/ TDone
 TSpec == TInit /\ [][TNext]_vars
 
 (* the single invariant: no check failed; a failure prints which, where *)
